@@ -82,15 +82,26 @@ def check(tier, seed, replay=None):
                 names = ['../victim', '../../top', '../escaped', '/tmp/syz_abs_escape_%d' % os.getpid(), 'sub/dir', '..', '.', '', 'a\\b', 'good', 'x\u0000y', '..%2Fvictim', '%2e%2e%2fvictim']
                 if tier == 'thorough':
                     names += ['../' * k + 'deep' for k in range(1, 6)] + [n.decode('latin1') for n in NAMES if b'\x00' not in n]
+                from urllib.parse import quote
                 for nm in names:
                     stats['server_names'] += 1
-                    for method, path, body in (
-                            ('POST', '/api/v1/collections', {'name': nm, 'distance_function': 'euclidean', 'vector_size': 2, 'quantization': 64}),
-                            ('POST', '/api/v1/collections/%s/records' % nm, [{'id': 1, 'vector': [1.0, 2.0], 'metadata': {'k': 'v'}}]),
-                            ('GET', '/api/v1/collections/%s/ids' % nm, None),
-                            ('DELETE', '/api/v1/collections/%s' % nm, None)):
+                    # the name as a URL path segment: raw, percent-encoded once, percent-encoded twice
+                    # (net/http decodes the path once; a handler that decodes again sees the separators)
+                    segs = [nm, quote(nm, safe=''), quote(quote(nm, safe=''), safe='')]
+                    reqs = [('POST', '/api/v1/collections', {'name': nm, 'distance_function': 'euclidean', 'vector_size': 2, 'quantization': 64})]
+                    for seg in dict.fromkeys(segs):
+                        reqs += [('POST', '/api/v1/collections/%s/records' % seg, [{'id': 1, 'vector': [1.0, 2.0], 'metadata': {'k': 'v'}}]),
+                                 ('GET', '/api/v1/collections/%s/ids' % seg, None),
+                                 ('GET', '/api/v1/collections/%s' % seg, None),
+                                 ('GET', '/api/v1/collections/%s/records/1' % seg, None),
+                                 ('PUT', '/api/v1/collections/%s/records/1/metadata' % seg, {'metadata': {'k': 'w'}}),
+                                 ('POST', '/api/v1/collections/%s/search' % seg, {'vector': [1.0, 2.0], 'k': 1}),
+                                 ('GET', '/api/v1/collections/%s/search?k=1' % seg, None),
+                                 ('DELETE', '/api/v1/collections/%s/records/1' % seg, None),
+                                 ('DELETE', '/api/v1/collections/%s' % seg, None)]
+                    for method, path, body in reqs:
                         try:
-                            srv.request(method, path, body)
+                            srv.request(method, path.replace('\x00', '%00').replace(' ', '%20'), body)
                         except Exception:
                             pass
                         stats['server_requests'] += 1
@@ -115,7 +126,7 @@ def check(tier, seed, replay=None):
         elif broken:
             chk.violation({'engine': 'proof', 'unproved': broken, 'what': 'a proof obligation no longer checks; no failing input found'}, tag='proof', no_input=True)
     chk.cov.update({'programs': len(cases), 'evaluations': len(cases) + stats['server_requests'], 'distinct_nontrivial': len(set(cases)),
-                    'rule': 'collection names with separators, .., absolute paths, empty, dots, NUL, percent-encoding, long, UTF-8, crossed with absolute / relative / dotted / unclean data folders; on the real server every hostile name is used in create, insert, ids and drop requests with sentinel files placed around the data folder',
+                    'rule': 'collection names with separators, .., absolute paths, empty, dots, NUL, percent-encoding, long, UTF-8, crossed with absolute / relative / dotted / unclean data folders; on the real server every hostile name is used in a create request and, as a URL path segment (raw, percent-encoded once and twice), in insert, ids, info, record get/update/delete, search and drop requests, with sentinel .dat files placed around the data folder',
                     'disagreements_checked': len(cases), 'samples': [{'folder': a.decode('latin1'), 'name': b.decode('latin1'), 'implementation': l} for (a, b), l in list(zip(cases, g))[:40:13]],
                     'distribution': stats, 'correspondence': 'model and implementation agree' if corr is None else 'DIVERGED', 'proof_obligations_broken': broken})
     chk.assumptions = [NOTE]
